@@ -15,6 +15,12 @@ func init() {
 // splitState builds a production-configured repository whose best chain ends one below the
 // BCH/BSV split height at the common fork point, with an optional side branch forked one lower.
 func splitState(withSide bool) (*Repository, *Branch, *Branch) {
+	return splitStateBeyond(withSide, false)
+}
+
+// splitStateBeyond optionally continues the best chain through the BSV split header and one more
+// header, so that forks are offered below an already verified split.
+func splitStateBeyond(withSide, beyond bool) (*Repository, *Branch, *Branch) {
 	cfg := &Config{Network: bitcoin.MainNet, MaxBranchDepth: 144}
 	repo := NewRepository(cfg, newVerifStore())
 	repo.DisableDifficulty() // proof of work is C02's subject; split protection stays on (production)
@@ -38,6 +44,17 @@ func splitState(withSide bool) (*Repository, *Branch, *Branch) {
 		repo.branches = append(repo.branches, side)
 		repo.heights[side.headers[0].Hash] = s - 1
 	}
+	if beyond {
+		h2 := &wire.BlockHeader{Version: 1, Timestamp: 1542301200, Bits: 0x18021fdb, Nonce: 4, PrevBlock: repo.requiredSplit.BeforeHash}
+		main.Add(h2) // height s: force the BSV split hash
+		delete(main.heightsMap, main.headers[2].Hash)
+		main.headers[2].Hash = repo.requiredSplit.AfterHash
+		main.heightsMap[repo.requiredSplit.AfterHash] = s
+		repo.heights[repo.requiredSplit.AfterHash] = s
+		h3 := &wire.BlockHeader{Version: 1, Timestamp: 1542301800, Bits: 0x18021fdb, Nonce: 5, PrevBlock: repo.requiredSplit.AfterHash}
+		main.Add(h3) // height s+1
+		repo.heights[main.headers[3].Hash] = s + 1
+	}
 	return repo, main, side
 }
 
@@ -58,7 +75,8 @@ func symHeader(prefix string) *wire.BlockHeader {
 // a header hashing to the BTC or BCH split hash is refused as wrong chain wherever it attaches.
 func VerifC03SplitHeight() {
 	withSide := nondetBool("with-side-branch")
-	repo, main, side := splitState(withSide)
+	beyond := nondetBool("tip-beyond-split")
+	repo, main, side := splitStateBeyond(withSide, beyond)
 	ctx := context_bg()
 	s := repo.requiredSplit.Height
 	x := symHeader("header")
@@ -77,6 +95,10 @@ func VerifC03SplitHeight() {
 		// fully symbolic parent
 	}
 	hash := *x.BlockHash()
+	if beyond {
+		// the BSV split header is already part of the chain: a new header has another hash
+		verifAssume(repo.HashHeight(hash) == -1)
+	}
 	// fact about the real chains (SHA-256d collision-free): the only header hashing to a split's
 	// AfterHash is that chain's real split header, whose PrevBlock is the split's fork point
 	for _, sp := range repo.splits {
